@@ -313,26 +313,43 @@ def run(tier: str, seed: int) -> int:
         recs = recs_b if which == "browser" else recs_m
         return {"subseed": sub, "story_source": src, "ops": [x["op"] for x in recs[1:]], "obs": [x["obs"] for x in recs[1:]]}
 
-    # (a) real browser engine vs browser model
-    bad, shown, log = C.run_coq_cases(chk.scratch, HEADER_B, terms_b, "ecase", "ecase_bad_b", shard=25, show_fn="ecase_show_b")
-    for b in bad:
-        if isinstance(b, int):
-            chk.disagree("browser-engine-vs-browser-model",
-                         "the real browser engine and its model (Engine/BrowserEngine.v) differ on a common-subset history",
-                         dict(replay(b, "browser"), model_first_difference=(shown.get(b) or "")[:2500]))
-        else:
+    # (a) real browser engine vs browser model, (a') real browser engine vs MAIN model without hooks / join (the comparison
+    # of the earlier version of this check: a departure is a concrete history on which the fork does not play like the engine
+    # the properties are proved for), (c) the two models on the same cases (an instance of the proved refinement).
+    # One pass with the disjunction of the three tests; the flagged cases are then evaluated test by test.
+    flagged, _, log = C.run_coq_cases(chk.scratch, HEADER_B, terms_b, "ecase", "browser_case_bad", shard=25)
+    for b in flagged:
+        if not isinstance(b, int):
             chk.disagree("browser-coqc", "a case shard failed to evaluate", {"log": log[-1500:]})
-    # (a') real browser engine vs MAIN model without hooks / join (the comparison of the earlier version of this check:
-    # a departure is a concrete history on which the fork does not play like the engine the properties are proved for)
-    bad, shown, log = C.run_coq_cases(chk.scratch, R.HEADER, terms_b, "ecase", "ecase_bad_browser", shard=25, show_fn="ecase_show")
-    for b in bad:
-        if isinstance(b, int):
-            chk.report("browser-engine-departs-from-model",
-                       "the browser engine differs from the main engine model (for which the main engine's properties are "
-                       "proved) on a common-subset history",
-                       dict(replay(b, "browser"), model_first_difference=(shown.get(b) or "")[:2500]))
-        else:
-            chk.disagree("browser-coqc", "a case shard failed to evaluate", {"log": log[-1500:]})
+    idx = [b for b in flagged if isinstance(b, int)]
+    sub_terms = [terms_b[i] for i in idx]
+    if sub_terms:
+        bad, shown, log = C.run_coq_cases(chk.scratch, HEADER_B, sub_terms, "ecase", "ecase_bad_b", shard=25, show_fn="ecase_show_b")
+        for b in bad:
+            if isinstance(b, int):
+                chk.disagree("browser-engine-vs-browser-model",
+                             "the real browser engine and its model (Engine/BrowserEngine.v) differ on a common-subset history",
+                             dict(replay(idx[b], "browser"), model_first_difference=(shown.get(b) or "")[:2500]))
+            else:
+                chk.disagree("browser-coqc", "a case shard failed to evaluate", {"log": log[-1500:]})
+        bad, shown, log = C.run_coq_cases(chk.scratch, HEADER_B, sub_terms, "ecase", "ecase_bad_browser", shard=25, show_fn="ecase_show")
+        for b in bad:
+            if isinstance(b, int):
+                chk.report("browser-engine-departs-from-model",
+                           "the browser engine differs from the main engine model (for which the main engine's properties are "
+                           "proved) on a common-subset history",
+                           dict(replay(idx[b], "browser"), model_first_difference=(shown.get(b) or "")[:2500]))
+            else:
+                chk.disagree("browser-coqc", "a case shard failed to evaluate", {"log": log[-1500:]})
+        bad, shown, log = C.run_coq_cases(chk.scratch, HEADER_B, sub_terms, "ecase", "models_differ", shard=25)
+        for b in bad:
+            if isinstance(b, int):
+                chk.disagree("models-differ-on-a-generated-case",
+                             "main model and browser model differ outside hooks/join: the generated story is not in the common "
+                             "subset (generator fault) - the theorem assumes common_story",
+                             replay(idx[b], "browser"))
+            else:
+                chk.disagree("models-coqc", "a case shard failed to evaluate", {"log": log[-1500:]})
     # (b) real main engine vs main model
     bad, shown, log = C.run_coq_cases(chk.scratch, R.HEADER, terms_m, "ecase", "ecase_bad", shard=25, show_fn="ecase_show")
     for b in bad:
@@ -342,27 +359,22 @@ def run(tier: str, seed: int) -> int:
                          dict(replay(b, "main"), model_first_difference=(shown.get(b) or "")[:2500]))
         else:
             chk.disagree("main-coqc", "a case shard failed to evaluate", {"log": log[-1500:]})
-    # (c) the two models on the same cases: an instance of the proved refinement
-    bad, shown, log = C.run_coq_cases(chk.scratch, HEADER_B, terms_b, "ecase", "models_differ", shard=25)
-    for b in bad:
-        if isinstance(b, int):
-            chk.disagree("models-differ-on-a-generated-case",
-                         "main model and browser model differ outside hooks/join: the generated story is not in the common "
-                         "subset (generator fault) - the theorem assumes common_story",
-                         replay(b, "browser"))
-        else:
-            chk.disagree("models-coqc", "a case shard failed to evaluate", {"log": log[-1500:]})
     terms = terms_b
     stats["bundles"] = bundle_check(chk, rng)
     chk.cov["programs"] = len(terms)
     chk.cov["disagreements_checked"] = len(terms)
     chk.cov["rule"] = ("common-subset stories (no hooks, no @join) x histories of choose/undo/redo/goto/read/reset with "
-                       "save->JSON->load hand-overs; both real engines compared step by step, the browser engine compared with the "
-                       "engine model inside Coq; non-trivial = the history contains a successful undo/redo or a save/load; distinct "
-                       "by sub-seed")
+                       "save->JSON->load hand-overs; the two real engines compared step by step with each other; inside Coq the real "
+                       "browser engine vs the browser model (and vs the main model without hooks/join), the real main engine vs the "
+                       "main model, and the two models with each other; non-trivial = the history contains a successful undo/redo "
+                       "or a save/load; distinct by sub-seed")
+    stats["model_cases"] = {"browser": len(terms_b), "main": len(terms_m)}
     chk.notes["input_distribution"] = stats
     chk.assumptions = ["common subset = Browser.common_story (no hook commands, no join markers, no '-> @join' choices); no import lines",
-                       "React framework hints and localStorage helpers of the fork are not exercised"]
+                       "React framework hints and localStorage helpers of the fork are not exercised",
+                       "save -> JSON -> load is abstracted in both models as in C05 (same situation, empty stacks)"]
     return chk.finish(props, C.BASE_TRUST + ["fork_diff: ast comparison of engine.py and engine_browser.py (harness/c19.py)",
-                                             "the browser engine is validated against the model, not separately modelled"],
+                                             "Engine/BrowserEngine.v is a separate hand-written model of engine_browser.py, tied to "
+                                             "the real fork by this run; the refinement browser model <= main model is proved "
+                                             "(Proofs/BrowserSim.v), the two ties are tested"],
                       "make -C /verif/coq && coqc -Q /verif/coq Bardic /verif/coq/Props/C19.v")
